@@ -30,6 +30,11 @@ CHECKS = {
     technique="TLA+ state machine Computable.tla (dependence chains declared link by link; semantic computability vs transcribed depends/compileTimeComputableValues) checked by TLC; every chain rendered into 14 compile-time contexts plus template-parameter instantiation chains and checked by libutap",
     text="TLC checks Sound (not computable => rejected) and Complete (computable => accepted) after every declaration step for all chains of length<=3 (quick) / 4 (thorough) and exports them; libutap's verdict on each rendered model must equal the semantic computability; free/bound process parameters through partial instantiations are covered by 24 instantiation chains.",
     note="Trusts TLC, the semantics in Computable.tla and the python renderer; function-local consts and external functions are outside the universe."),
+ "C17": dict(
+    category="model_checking", design_ref="DESIGN.md section 5 (C17), 2.6",
+    technique="TLA+ module Features.tla (one restricting-feature placement per model; Sem from the statement vs Impl transcribing FeatureChecker) evaluated by TLC on the whole universe; every model rendered, parsed and get_supported_methods() compared with Sem",
+    text="TLC evaluates Impl=>Sem for 1114 placements (fp comparison: role x operator x operand order x position; fp assignment; clock initialiser; rate incl. fp rate; channel kind x scope x shape; dynamic templates; priorities) x 5 instantiation modes and exports them; libutap must not report a method the semantics forbids, in either declaration order.",
+    note="Function-shaped module (states = exported placements). One feature per model; non-constant rates count as permitted (pinned by the repository's own test)."),
 }
 NOT_APPLICABLE = {}
 PENDING_REASON = "check not built yet (work in progress; see DESIGN.md section 5 for the plan)"
